@@ -34,6 +34,8 @@ def decode_value(v: Any) -> Any:
             return frozenset(decode_value(x) for x in v["$fs"])
         if "$p" in v:
             return Path(v["$p"])
+        if "$b" in v:
+            return bytes.fromhex(v["$b"])
         if "$bomb" in v:
             return M.load().Bomb(v["$bomb"])
         raise ValueError(v)
@@ -58,6 +60,8 @@ def typed_value(v: Any) -> Any:
         return ("str", v)
     if isinstance(v, PurePath):
         return ("path", v.as_posix())
+    if isinstance(v, (bytes, bytearray)):
+        return ("bytes", bytes(v).hex())
     if isinstance(v, tuple):
         return ("tuple", tuple(typed_value(x) for x in v))
     if isinstance(v, frozenset):
@@ -369,14 +373,18 @@ def st_value(kind: str, strs: Any = None):
         return st.lists(inner, max_size=3, unique_by=lambda d: tuple(sorted(d["$fs"]))).map(lambda xs: {"$fs": xs})
     if kind == "senum":
         return st.sampled_from(["ADD", "SUB"]).map(lambda n: {"$se": n})
+    if kind == "bytes":
+        # invalid UTF-8 next to the text of its own escape, embedded quotes and separators
+        return st.sampled_from([b"", b"a", b"\xff", b"\\xff", b"\x00", b"\xc3\xa9", b"'", b"\\'", b")", b"a\xffb",
+                                b"a\\xffb", b"\xe9", b"\\xe9"]).map(lambda x: {"$b": x.hex()})
     if kind == "str":
         return s
     if kind == "optstr":
         return st.one_of(st.none(), s)
     if kind == "float":
         return st.one_of(
-            st.sampled_from([0.0, 1.5, -2.25, 1e16, 5e-324, 1e-7, 3.0]),
-            st.floats(allow_nan=False, allow_infinity=False).filter(lambda x: not (x == 0 and str(x)[0] == "-")),
+            st.sampled_from([0.0, 1.5, -2.25, 1e16, 5e-324, 1e-7, 3.0, -0.0, 1e300, -1.7976931348623157e308]),
+            st.floats(allow_nan=False, allow_infinity=False),
         )
     if kind == "path":
         return st.sampled_from(["x", "a/b", "/abs/p.txt", "rel/../q", "."]).map(lambda p: {"$p": p})
@@ -457,7 +465,7 @@ class TreeGen:
     def leaf(self):
         from hypothesis import strategies as st
 
-        names = ["LeafA", "LeafA", "LeafB", "SubLeafA", "SubSubLeafA", "Strs", "Vals", "TagA", "SlotLeaf", "Checked"]
+        names = ["LeafA", "LeafA", "LeafB", "SubLeafA", "SubSubLeafA", "Strs", "Vals", "TagA", "SlotLeaf", "Checked", "EqLeaf"]
         if self.falsy:
             names.append("Falsy")
         if self.servals:
@@ -590,3 +598,47 @@ class TreeGen:
     def inner_tree(self):
         """a tree whose root is an inner node (has child fields)."""
         return self.inner(self.tree())
+
+
+# ------------------------------------------------------------------ very deep, narrow trees
+
+
+def deep_depth(factor: int = 2) -> int:
+    """a depth safely beyond the interpreter's recursion limit (a library walk that recurses once
+    per level cannot finish on it)"""
+    import sys
+
+    return sys.getrecursionlimit() * factor + 37
+
+
+def build_chain(depth: int, shape: str, sources: list, bottom_origin: list | None = None) -> list[Any]:
+    """a chain of `depth` single-child nodes over a leaf, built iteratively bottom-up; returns the
+    nodes top to bottom (the last one is the leaf). shapes: one (Uni.one), items (Mixed.items[0]),
+    child (Mixed.child), mixed (alternating)."""
+    node = M.cls("LeafA")(v=1, origin=og.build_origin(bottom_origin or ["no"], sources))
+    out = [node]
+    for k in range(depth):
+        sh = shape if shape != "mixed" else ("one", "items", "child")[k % 3]
+        if sh == "one":
+            node = M.cls("Uni")(one=node)
+        elif sh == "items":
+            node = M.cls("Mixed")(child=None, items=(node,), v=k % 2)
+        else:
+            node = M.cls("Mixed")(child=node, v=k % 3)
+        out.append(node)
+    out.reverse()
+    return out
+
+
+def chain_positions(nodes: list[Any]) -> list[tuple]:
+    """(node, parent, field, index) of every proper descendant, top to bottom"""
+    out = []
+    for p, c in zip(nodes, nodes[1:]):
+        cn = type(p).__name__
+        if cn == "Uni":
+            out.append((c, p, "one", None))
+        elif p.child is c:
+            out.append((c, p, "child", None))
+        else:
+            out.append((c, p, "items", 0))
+    return out
